@@ -6,6 +6,7 @@ import (
 	htmltemplate "html/template"
 	"text/scanner"
 	"text/template"
+	"time"
 )
 
 var (
@@ -13,4 +14,5 @@ var (
 	_ *htmltemplate.Template
 	_ scanner.Position
 	_ goscanner.ErrorList
+	_ time.Duration
 )
